@@ -19,9 +19,15 @@ Gen/Enums.vos Gen/Enums.vok Gen/Enums.required_vos: Gen/Enums.v
 Gen/Layouts.vo Gen/Layouts.glob Gen/Layouts.v.beautified Gen/Layouts.required_vo: Gen/Layouts.v Base/Layout.vo
 Gen/Layouts.vio: Gen/Layouts.v Base/Layout.vio
 Gen/Layouts.vos Gen/Layouts.vok Gen/Layouts.required_vos: Gen/Layouts.v Base/Layout.vos
+Model/AlignedStream.vo Model/AlignedStream.glob Model/AlignedStream.v.beautified Model/AlignedStream.required_vo: Model/AlignedStream.v Base/Plan.vo
+Model/AlignedStream.vio: Model/AlignedStream.v Base/Plan.vio
+Model/AlignedStream.vos Model/AlignedStream.vok Model/AlignedStream.required_vos: Model/AlignedStream.v Base/Plan.vos
 Model/Hds.vo Model/Hds.glob Model/Hds.v.beautified Model/Hds.required_vo: Model/Hds.v Base/Plan.vo Base/Table.vo Gen/Consts.vo
 Model/Hds.vio: Model/Hds.v Base/Plan.vio Base/Table.vio Gen/Consts.vio
 Model/Hds.vos Model/Hds.vok Model/Hds.required_vos: Model/Hds.v Base/Plan.vos Base/Table.vos Gen/Consts.vos
+Model/Lru.vo Model/Lru.glob Model/Lru.v.beautified Model/Lru.required_vo: Model/Lru.v 
+Model/Lru.vio: Model/Lru.v 
+Model/Lru.vos Model/Lru.vok Model/Lru.required_vos: Model/Lru.v 
 Model/Vdi.vo Model/Vdi.glob Model/Vdi.v.beautified Model/Vdi.required_vo: Model/Vdi.v Base/Plan.vo Base/Table.vo Model/Walk.vo Gen/Consts.vo
 Model/Vdi.vio: Model/Vdi.v Base/Plan.vio Base/Table.vio Model/Walk.vio Gen/Consts.vio
 Model/Vdi.vos Model/Vdi.vok Model/Vdi.required_vos: Model/Vdi.v Base/Plan.vos Base/Table.vos Model/Walk.vos Gen/Consts.vos
@@ -34,12 +40,21 @@ Model/Vhdx.vos Model/Vhdx.vok Model/Vhdx.required_vos: Model/Vhdx.v Base/Plan.vo
 Model/Walk.vo Model/Walk.glob Model/Walk.v.beautified Model/Walk.required_vo: Model/Walk.v Base/Plan.vo
 Model/Walk.vio: Model/Walk.v Base/Plan.vio
 Model/Walk.vos Model/Walk.vok Model/Walk.required_vos: Model/Walk.v Base/Plan.vos
+Proofs/AlignedStream.vo Proofs/AlignedStream.glob Proofs/AlignedStream.v.beautified Proofs/AlignedStream.required_vo: Proofs/AlignedStream.v Base/Arith.vo Base/Plan.vo Model/AlignedStream.vo
+Proofs/AlignedStream.vio: Proofs/AlignedStream.v Base/Arith.vio Base/Plan.vio Model/AlignedStream.vio
+Proofs/AlignedStream.vos Proofs/AlignedStream.vok Proofs/AlignedStream.required_vos: Proofs/AlignedStream.v Base/Arith.vos Base/Plan.vos Model/AlignedStream.vos
 Proofs/BlockMapped.vo Proofs/BlockMapped.glob Proofs/BlockMapped.v.beautified Proofs/BlockMapped.required_vo: Proofs/BlockMapped.v Base/Arith.vo Base/Plan.vo Model/Walk.vo
 Proofs/BlockMapped.vio: Proofs/BlockMapped.v Base/Arith.vio Base/Plan.vio Model/Walk.vio
 Proofs/BlockMapped.vos Proofs/BlockMapped.vok Proofs/BlockMapped.required_vos: Proofs/BlockMapped.v Base/Arith.vos Base/Plan.vos Model/Walk.vos
 Proofs/Hds.vo Proofs/Hds.glob Proofs/Hds.v.beautified Proofs/Hds.required_vo: Proofs/Hds.v Base/Arith.vo Base/Plan.vo Base/Table.vo Model/Hds.vo Proofs/BlockMapped.vo
 Proofs/Hds.vio: Proofs/Hds.v Base/Arith.vio Base/Plan.vio Base/Table.vio Model/Hds.vio Proofs/BlockMapped.vio
 Proofs/Hds.vos Proofs/Hds.vok Proofs/Hds.required_vos: Proofs/Hds.v Base/Arith.vos Base/Plan.vos Base/Table.vos Model/Hds.vos Proofs/BlockMapped.vos
+Proofs/Lru.vo Proofs/Lru.glob Proofs/Lru.v.beautified Proofs/Lru.required_vo: Proofs/Lru.v Model/Lru.vo
+Proofs/Lru.vio: Proofs/Lru.v Model/Lru.vio
+Proofs/Lru.vos Proofs/Lru.vok Proofs/Lru.required_vos: Proofs/Lru.v Model/Lru.vos
+Proofs/StreamReaders.vo Proofs/StreamReaders.glob Proofs/StreamReaders.v.beautified Proofs/StreamReaders.required_vo: Proofs/StreamReaders.v Base/Arith.vo Base/Plan.vo Base/Table.vo Model/AlignedStream.vo Proofs/AlignedStream.vo Model/Walk.vo Proofs/BlockMapped.vo Model/Vhd.vo Proofs/Vhd.vo Model/Vdi.vo Proofs/Vdi.vo Model/Vhdx.vo Proofs/Vhdx.vo Model/Hds.vo Proofs/Hds.vo
+Proofs/StreamReaders.vio: Proofs/StreamReaders.v Base/Arith.vio Base/Plan.vio Base/Table.vio Model/AlignedStream.vio Proofs/AlignedStream.vio Model/Walk.vio Proofs/BlockMapped.vio Model/Vhd.vio Proofs/Vhd.vio Model/Vdi.vio Proofs/Vdi.vio Model/Vhdx.vio Proofs/Vhdx.vio Model/Hds.vio Proofs/Hds.vio
+Proofs/StreamReaders.vos Proofs/StreamReaders.vok Proofs/StreamReaders.required_vos: Proofs/StreamReaders.v Base/Arith.vos Base/Plan.vos Base/Table.vos Model/AlignedStream.vos Proofs/AlignedStream.vos Model/Walk.vos Proofs/BlockMapped.vos Model/Vhd.vos Proofs/Vhd.vos Model/Vdi.vos Proofs/Vdi.vos Model/Vhdx.vos Proofs/Vhdx.vos Model/Hds.vos Proofs/Hds.vos
 Proofs/Vdi.vo Proofs/Vdi.glob Proofs/Vdi.v.beautified Proofs/Vdi.required_vo: Proofs/Vdi.v Base/Arith.vo Base/Plan.vo Base/Table.vo Model/Walk.vo Model/Vdi.vo Proofs/BlockMapped.vo
 Proofs/Vdi.vio: Proofs/Vdi.v Base/Arith.vio Base/Plan.vio Base/Table.vio Model/Walk.vio Model/Vdi.vio Proofs/BlockMapped.vio
 Proofs/Vdi.vos Proofs/Vdi.vok Proofs/Vdi.required_vos: Proofs/Vdi.v Base/Arith.vos Base/Plan.vos Base/Table.vos Model/Walk.vos Model/Vdi.vos Proofs/BlockMapped.vos
@@ -61,3 +76,6 @@ Props/C05.vos Props/C05.vok Props/C05.required_vos: Props/C05.v Base/Plan.vos Ba
 Props/C06.vo Props/C06.glob Props/C06.v.beautified Props/C06.required_vo: Props/C06.v Base/Plan.vo Base/Table.vo Model/Hds.vo Proofs/Hds.vo
 Props/C06.vio: Props/C06.v Base/Plan.vio Base/Table.vio Model/Hds.vio Proofs/Hds.vio
 Props/C06.vos Props/C06.vok Props/C06.required_vos: Props/C06.v Base/Plan.vos Base/Table.vos Model/Hds.vos Proofs/Hds.vos
+Props/C08.vo Props/C08.glob Props/C08.v.beautified Props/C08.required_vo: Props/C08.v Base/Plan.vo Base/Table.vo Model/AlignedStream.vo Proofs/AlignedStream.vo Model/Lru.vo Proofs/Lru.vo Proofs/StreamReaders.vo Model/Vhd.vo Proofs/Vhd.vo Model/Vdi.vo Proofs/Vdi.vo Model/Vhdx.vo Proofs/Vhdx.vo Model/Hds.vo Proofs/Hds.vo
+Props/C08.vio: Props/C08.v Base/Plan.vio Base/Table.vio Model/AlignedStream.vio Proofs/AlignedStream.vio Model/Lru.vio Proofs/Lru.vio Proofs/StreamReaders.vio Model/Vhd.vio Proofs/Vhd.vio Model/Vdi.vio Proofs/Vdi.vio Model/Vhdx.vio Proofs/Vhdx.vio Model/Hds.vio Proofs/Hds.vio
+Props/C08.vos Props/C08.vok Props/C08.required_vos: Props/C08.v Base/Plan.vos Base/Table.vos Model/AlignedStream.vos Proofs/AlignedStream.vos Model/Lru.vos Proofs/Lru.vos Proofs/StreamReaders.vos Model/Vhd.vos Proofs/Vhd.vos Model/Vdi.vos Proofs/Vdi.vos Model/Vhdx.vos Proofs/Vhdx.vos Model/Hds.vos Proofs/Hds.vos
